@@ -65,7 +65,9 @@ type Exec struct {
 	axioms  []string // quantified facts about the entry heap (prunable)
 	extra   []string // extra assertions (ground instances) global to this function
 	isInit  bool
+	ghostFn bool // defined in a verif-tagged file (ghost client)
 	lenient bool
+	inOnce  bool
 	covers  int
 	callDepth int
 	entryInv map[string]string // invariant label -> term at entry
@@ -266,6 +268,10 @@ func (ex *Exec) oblige(st *State, kind, label string, goal Term, tags []string, 
 // clauses are tagged with, safety and termination additionally for C14,
 // frames for C13.
 func (ex *Exec) effectiveTags(kind string, tags []string) []string {
+	if ex.fn != nil && ex.p.Tool != nil && ex.fn.Pkg == ex.p.Tool {
+		// the generator is not part of the library API: its obligations count for C17 only
+		return []string{"C17"}
+	}
 	seen := map[string]bool{}
 	var out []string
 	add := func(ts ...string) {
@@ -283,13 +289,24 @@ func (ex *Exec) effectiveTags(kind string, tags []string) []string {
 		add(ex.fnTags()...)
 	case "variant":
 		add("C14")
-	case "inv-entry", "inv-preserved", "assert", "split-cover", "lemma", "panic":
+	case "inv-entry", "inv-preserved", "assert", "split-cover":
+		if len(tags) == 0 {
+			add(ex.fnTags()...)
+		}
+		// the safety obligations that follow are proved under these facts
+		if !ex.ghostFn {
+			add("C14")
+		}
+	case "lemma", "panic":
 		if len(tags) == 0 {
 			add(ex.fnTags()...)
 		}
 	case "loop-frame", "call-inv":
 		add("C13", "C12")
 		add(ex.fnTags()...)
+		if !ex.ghostFn {
+			add("C14")
+		}
 	case "frame", "global-inv", "init-inv":
 		// frames: nothing shared is written outside the declared, Once-guarded state (C12, C13)
 		add("C13", "C12")
@@ -336,6 +353,13 @@ func (ex *Exec) script(st *State, negGoal Term) string {
 	for _, d := range ex.decls {
 		db.WriteString(d)
 		db.WriteByte('\n')
+	}
+	if !ex.isInit {
+		// symbols of the package initialiser (values of unknown initialisers)
+		for _, d := range ex.p.initDecls {
+			db.WriteString(d)
+			db.WriteByte('\n')
+		}
 	}
 	pre := ex.p.prelude(ex.native) + ex.literalDecls() + db.String() + ax.String()
 	if noPrune {
@@ -1094,13 +1118,19 @@ func (ex *Exec) atReturn(st *State, ret *ssa.Return) {
 			ex.oblige(st, "ensures", e.Label+"@"+site, g, e.Tags, ret, e.Src)
 		}
 	}
-	// global invariants re-established
+	// global invariants re-established; a builder literal passed to O.Do is
+	// judged in the state Do leaves behind (its Once marked done)
+	ist := st
+	if once := ex.p.onceOfLiteral(ex.fn); once != nil {
+		ist = st.clone()
+		ist.heap["Done"] = Store(ist.heap["Done"], IntLit(int64(ex.p.onceID(once))), TTrue)
+	}
 	for _, inv := range ex.p.Contracts.Invariants {
-		t := ex.specBool(st, inv.Expr, &specCtx{mode: "exitinv"})
+		t := ex.specBool(ist, inv.Expr, &specCtx{mode: "exitinv"})
 		if t.S == ex.entryInv[inv.Label] {
 			continue
 		}
-		ex.oblige(st, "global-inv", inv.Label+"@"+site, t, append([]string{"C13"}, inv.Tags...), ret, inv.Src)
+		ex.oblige(ist, "global-inv", inv.Label+"@"+site, t, append([]string{"C13"}, inv.Tags...), ret, inv.Src)
 	}
 	// frame
 	as := &assignSet{refs: map[string][]Term{}, globals: map[string]bool{}, all: map[string]bool{}}
